@@ -922,7 +922,7 @@ func (w *world) runCase(out *bufio.Writer, id string, limit int, req request) {
 	var ctx context.Context
 	var cancel context.CancelFunc
 	if w.ctl {
-		ctx, cancel = context.WithTimeout(context.Background(), 3*time.Second)
+		ctx, cancel = context.WithTimeout(context.Background(), 1200*time.Millisecond)
 	} else {
 		// no controllers: the handler would wait for ever once the transaction is logged; release it
 		// as soon as the transaction is in the store (or after a short while)
